@@ -153,6 +153,9 @@ def run(ctx, R, tier):
     seek_landing(F, R)
     load_append(F, R)
     rate_rule(F, R)
+    # streaming yields the frames the decoder produced: silence only past the end of the audio (the C09 rule)
+    from .c09 import frame_source
+    frame_source(F, R)
 
 
 def rate_rule(F, R):
@@ -193,6 +196,12 @@ def load_append(F, R):
             and any('load_frames_from_buffer_ref' in describe(b, b.blocks[x]['term']['args'][1], depth=8, at=x) for x in ap_in)
     R.check(ok, 'B.C18.load', 'append', 'the static loader does not append the frames of every decoded packet to its result',
             detail='frames.append(load_frames_from_buffer_ref(&buffer)?) in the packet loop', where=b.file)
+    # "never invented samples": nothing else grows or rewrites the result (no padding up to an advertised length)
+    grow = [(x, (callee_path(t) or '').split('::')[-1]) for x, t in b.calls() if 'std::vec::Vec' in (callee_path(t) or '')
+            and (callee_path(t) or '').split('::')[-1] in ('resize', 'resize_with', 'push', 'insert', 'extend', 'extend_from_slice', 'append', 'fill', 'truncate', 'set_len', 'splice')]
+    extra = [(x, nm) for x, nm in grow if not (x in ap and 'load_frames_from_buffer_ref' in describe(b, b.blocks[x]['term']['args'][1], depth=8, at=x))]
+    R.check(not extra, 'B.C18.load', 'only-decoded', 'the static loader also changes its result through %s: frames that were not decoded from the file'
+            % [nm for _, nm in extra], detail={'other_writers': [nm for _, nm in extra]}, where=b.file)
 
 
 def seek_landing(F, R):
